@@ -624,6 +624,10 @@ func (in *Interp) sqlSelect(st *dbState, db *sqlm.DB, dest iface, text string, a
 }
 
 func (in *Interp) sqlExec(st *dbState, db *sqlm.DB, text string, args *sqlm.Args) (value, *smt.Term) {
+	if isPragma(text) {
+		in.path.noteAssumption("PRAGMA statements have no effect on the relational content")
+		return iface{}, in.C.BVConstI(0, 64)
+	}
 	p := in.parseSQL(st, text)
 	env := sqlEnv{in}
 	c := in.C
@@ -798,10 +802,50 @@ func (P *Program) registerSQL() {
 	P.reg("(*"+X+".DB).Exec", dbExec)
 	P.reg("(*database/sql.DB).Exec", dbExec)
 	queryRow := func(fr *frame, args []value) value {
-		// only used as an existence probe whose result is compared with nil
-		var cell value = &opaque{kind: "sql.Row"}
+		// used as an existence probe whose result is compared with nil, and for PRAGMA values
+		var cell value = &opaque{kind: "sql.Row", data: fr.in.goStr(args[1], "sql text")}
 		return &cell
 	}
+	P.reg("(*database/sql.Row).Scan", func(fr *frame, args []value) value {
+		in := fr.in
+		o := (*args[0].(*value)).(*opaque)
+		text, _ := o.data.(string)
+		if !isPragma(text) {
+			panic(unsupported{"sql.Row.Scan of a non-PRAGMA query"})
+		}
+		for _, d := range args[1].(sliceVal) {
+			di := d.(iface)
+			*di.v.(*value) = in.zero(deref(di.t))
+		}
+		return iface{}
+	})
+	// the index list of a table (sqlite_master), from the probed schema
+	P.reg("(*database/sql.DB).Query", func(fr *frame, args []value) value {
+		in := fr.in
+		text := in.goStr(args[1], "sql text")
+		if !strings.Contains(text, "sqlite_master") {
+			panic(unsupported{"sql.DB.Query: " + sqlm.NormSQL(text)})
+		}
+		st := hDB(args[0])
+		in.path.noteAssumption("sqlite_master index listing answered from the probed schema (name, CREATE INDEX text reconstructed)")
+		h := &rowsHandle{cols: []sqlm.RCol{{Name: "name", K: sqlm.KStr}, {Name: "sql", K: sqlm.KStr}}}
+		for tbl, idx := range st.db.Indexes {
+			if !strings.Contains(text, "'"+tbl+"'") {
+				continue
+			}
+			for _, ix := range idx {
+				if strings.HasPrefix(ix.Name, "sqlite_autoindex") {
+					continue
+				}
+				ddl := "CREATE INDEX " + ix.Name + " ON " + tbl + " (" + strings.Join(ix.Cols, ", ") + ")"
+				h.rows = append(h.rows, sqlm.RRow{Present: in.C.True(), Vals: []sqlm.Val{
+					{K: sqlm.KStr, T: in.C.StrConst(ix.Name), Null: in.C.False()}, {K: sqlm.KStr, T: in.C.StrConst(ddl), Null: in.C.False()}}})
+			}
+		}
+		sort.Slice(h.rows, func(i, j int) bool { return h.rows[i].Vals[0].T.ID < h.rows[j].Vals[0].T.ID })
+		var inner value = &opaque{kind: "sql.Rows", data: h}
+		return tuple{&inner, iface{}}
+	})
 	P.reg("(*"+X+".DB).QueryRow", queryRow)
 	P.reg("(*database/sql.DB).QueryRow", queryRow)
 	P.reg("(*"+X+".DB).Close", func(fr *frame, args []value) value { return iface{} })
@@ -1157,4 +1201,8 @@ func (P *Program) registerWriteStmts() {
 		in.path.notes = append(in.path.notes, "write statement exercised: "+sqlm.NormSQL(stmts[i]))
 		return nil
 	})
+}
+
+func isPragma(text string) bool {
+	return strings.HasPrefix(strings.ToUpper(strings.TrimSpace(text)), "PRAGMA")
 }
